@@ -1,0 +1,121 @@
+//go:build verif
+
+package xmss
+
+// Verification-only exports (build tag "verif"). Nothing in this file is
+// compiled into a normal build; it gives the model-conformance harness in
+// /verif read access to the traversal state and to the internal hash
+// functions so that traces of the real code can be checked against the
+// TLA+ specification.
+
+type VerifTreeHash struct {
+	H          uint32
+	NextIdx    uint32
+	StackUsage uint32
+	Completed  uint8
+	Node       []uint8
+}
+
+type VerifState struct {
+	SK          []uint8
+	Stack       []uint8
+	StackOffset uint32
+	StackLevels []uint8
+	Auth        []uint8
+	Keep        []uint8
+	Retain      []uint8
+	TreeHash    []VerifTreeHash
+	NextLeaf    uint32
+	Height      uint8
+	HashFn      HashFunction
+	Desc        [3]uint8
+}
+
+func verifDup(b []uint8) []uint8 {
+	c := make([]uint8, len(b))
+	copy(c, b)
+	return c
+}
+
+// VerifSnapshot returns a deep copy of the complete mutable state of x.
+func VerifSnapshot(x *XMSS) VerifState {
+	s := VerifState{
+		SK:          verifDup(x.sk),
+		Stack:       verifDup(x.bdsState.stack),
+		StackOffset: x.bdsState.stackOffset,
+		StackLevels: verifDup(x.bdsState.stackLevels),
+		Auth:        verifDup(x.bdsState.auth),
+		Keep:        verifDup(x.bdsState.keep),
+		Retain:      verifDup(x.bdsState.retain),
+		NextLeaf:    x.bdsState.nextLeaf,
+		Height:      x.height,
+		HashFn:      x.hashFunction,
+		Desc:        x.desc.GetBytes(),
+	}
+	for _, t := range x.bdsState.treeHash {
+		s.TreeHash = append(s.TreeHash, VerifTreeHash{t.h, t.nextIdx, t.stackUsage, t.completed, verifDup(t.node)})
+	}
+	return s
+}
+
+func VerifHashH(hf HashFunction, out, in, pubSeed []uint8, addr *[8]uint32) {
+	hashH(hf, out, in, pubSeed, addr, WOTSParamN)
+}
+
+func VerifHashF(hf HashFunction, out, in, pubSeed []uint8, addr *[8]uint32) {
+	hashF(hf, out, in, pubSeed, addr, WOTSParamN)
+}
+
+func VerifPRF(hf HashFunction, out, in, key []uint8) {
+	prf(hf, out, in, key, WOTSParamN)
+}
+
+func VerifHMsg(hf HashFunction, out, in, key []uint8) error {
+	return hMsg(hf, out, in, key, WOTSParamN)
+}
+
+func VerifCoreHash(hf HashFunction, out []uint8, typeValue uint32, key, in []uint8) {
+	coreHash(hf, out, typeValue, key, uint32(len(key)), in, uint32(len(in)), WOTSParamN)
+}
+
+// VerifGenLeaf computes leaf number idx of the tree of (skSeed, pubSeed) with
+// the library's own genLeafWOTS (WOTS key generation + L-tree).
+func VerifGenLeaf(hf HashFunction, leaf, skSeed, pubSeed []uint8, h uint32, idx uint32) {
+	var otsAddr, lTreeAddr [8]uint32
+	otsAddr[3] = 0
+	lTreeAddr[3] = 1
+	otsAddr[4] = idx
+	lTreeAddr[4] = idx
+	genLeafWOTS(hf, leaf, skSeed, NewXMSSParams(WOTSParamN, h, WOTSParamW, WOTSParamK), pubSeed, &lTreeAddr, &otsAddr)
+}
+
+func VerifLTree(hf HashFunction, w uint32, leaf, wotsPK, pubSeed []uint8, addr *[8]uint32) {
+	lTree(hf, NewWOTSParams(WOTSParamN, w), leaf, wotsPK, pubSeed, addr)
+}
+
+func VerifValidateAuthPath(hf HashFunction, root, leaf []uint8, leafIdx uint32, authpath []uint8, h uint32, pubSeed []uint8) {
+	var addr [8]uint32
+	addr[3] = 2
+	validateAuthPath(hf, root, leaf, leafIdx, authpath, WOTSParamN, h, pubSeed, &addr)
+}
+
+type VerifWOTSParams struct {
+	Len1, Len2, Len, N, W, LogW, KeySize uint32
+}
+
+func VerifWOTSParamsOf(n, w uint32) VerifWOTSParams {
+	p := NewWOTSParams(n, w)
+	return VerifWOTSParams{p.len1, p.len2, p.len, p.n, p.w, p.logW, p.keySize}
+}
+
+func VerifGetHeightFromSigSize(sigSize, w uint32) uint32 { return getHeightFromSigSize(sigSize, w) }
+
+func VerifSignatureSize(h, w uint32) uint32 {
+	return getSignatureSize(NewXMSSParams(WOTSParamN, h, w, WOTSParamK))
+}
+
+func VerifBaseW(outLen uint32, input []uint8, w uint32) []uint8 {
+	out := make([]uint8, outLen)
+	CalcBaseW(out, outLen, input, NewWOTSParams(WOTSParamN, w))
+	return out
+}
